@@ -1,3 +1,152 @@
-import KoordVerif.Model.C01
+import KoordVerif.Proofs.C01Step
+/-
+C01 — elastic-quota used/request accounting is exact over any event history.
+
+Model: KoordVerif/Model/C01.lean (one dimension).  Local-equation formulation (DESIGN §4 C01):
+  `ReqInv s`  : for every group g   selfRequest g = Σ pods, selfNpRequest g = Σ non-preemptible pods,
+                childRequest g = selfRequest g + Σ_{c.parent = g} min(request c, max c)     (root: request g)
+                npRequest g = selfNpRequest g + Σ_{c.parent = g} npRequest c,
+                request g = if lend then childRequest else max childRequest min             (g ≠ root)
+  `UsedInv s` : selfUsed g = Σ assigned pods, used g = selfUsed g + Σ_{c.parent = g} used c  (same for non-preemptible)
+  `LocalInv s = ReqInv s ∧ UsedInv s`.
+The equations are stated through their *defects* (`dCR`, `dNpReq`, `dUsed`, `dNpUsed` = lhs − rhs), so that the
+effect of a delta propagation can be described exactly also on states where an equation is (temporarily) off:
+that is how re-parenting, deletion, min/max updates and the rebuild use the propagation (self index −1).
+
+What is proved here for ALL states, chains, deltas (no bound on sizes or values):
+  * the exact effect of recursiveUpdateGroupTreeWithDeltaRequest / updateGroupDeltaUsedNoLock on every defect
+    of every group (`propagate_request_frame`, `propagate_used_frame`), both self-index conventions;
+  * a propagation that starts at the group whose pod set changed by exactly the propagated delta restores all
+    equations (`propagate_request_preserves`, `propagate_used_preserves`) and leaves the other side untouched;
+  * `no_clamp_*`: in that situation no non-negative clamp fires (the clamped run equals the un-clamped one), and
+    `localInv_nonneg`: a state satisfying the equations has no negative figure ("nothing is driven negative");
+  * `zero_delta_*_identity`: the only difference between the per-dimension model and the multi-dimension Go code.
+
+NOT yet proved (kept visible, see `step_preserves_localInv_partial` below): the lifting of the two preservation
+theorems through every individual operation (`step`) and hence `history_exact` by induction over op lists; the
+uniqueness lemma `localInv_unique`; `delta_commute`.  For those the check relies on the correspondence run
+(model = code after every op) plus the independent oracle (recomputation from the surviving pods and a fresh
+manager).  Hypotheses used below and not in the property text: the propagated path is a proper parent chain
+without repetition (`Chain`, `Nodup`: the tree is acyclic and free of orphans), quota names are unique, a rank
+function exists (acyclic), declared max and pod requests are >= 0.
+-/
 namespace KoordVerif.C01
+
+/-- Exact effect of the request propagation (un-clamped run) on every group `m`: nothing but the five request
+figures changes; `selfRequest`/`selfNpRequest` change only at the head and only with self index 0; the defect
+of the childRequest equation (root: request equation) of `m` changes by `d` exactly when `m` is the head and
+the self index is −1, likewise the non-preemptible one; on every non-root group of the path
+`request = lendRule childRequest` holds afterwards; groups off the path are untouched. -/
+theorem propagate_request_frame (path : List Nat) (s : State) (self : Bool) (d dnp : Int)
+    (hc : Chain s path) (hnd : path.Nodup) :
+    ReqRel s (propReqW id s path self d dnp) path self d dnp :=
+  propReq_frame path s self d dnp hc hnd
+
+/-- Exact effect of the used propagation (un-clamped run), same shape. -/
+theorem propagate_used_frame (path : List Nat) (s : State) (self : Bool) (d dnp : Int)
+    (hc : Chain s path) (hnd : path.Nodup) :
+    UsedRel s (propUsedW id s path self d dnp) path.head? self d dnp :=
+  propUsed_frame path s self d dnp hc hnd
+
+/-- If all request equations hold except that the pod set of `n` changed by (`d`,`dnp`), the REAL (clamped)
+propagation from `n` with self index 0 restores every request equation, keeps every used equation (also a
+pending one), keeps the tree and the parameters. -/
+theorem propagate_request_preserves {s : State} {pth : List Nat} {n : Nat} {d dnp : Int}
+    (hc : Chain s pth) (hnd : pth.Nodup) (hh : pth.head? = some n)
+    (ht : TreeOK (tree s)) (hpar : ParamsOK s) (hpend : ReqPend s n d dnp) :
+    ReqInv (propReq s pth true d dnp) ∧
+    (∀ u a b, UsedPend s u a b → UsedPend (propReq s pth true d dnp) u a b) ∧
+    tree (propReq s pth true d dnp) = tree s ∧ ParamsOK (propReq s pth true d dnp) :=
+  (propReq_self hc hnd hh ht hpar hpend).2
+
+theorem propagate_used_preserves {s : State} {pth : List Nat} {n : Nat} {d dnp : Int}
+    (hc : Chain s pth) (hnd : pth.Nodup) (hh : pth.head? = some n)
+    (ht : TreeOK (tree s)) (hpar : ParamsOK s) (hpend : UsedPend s n d dnp) :
+    UsedInv (propUsed s pth true d dnp) ∧
+    (∀ u a b, ReqPend s u a b → ReqPend (propUsed s pth true d dnp) u a b) ∧
+    tree (propUsed s pth true d dnp) = tree s ∧ ParamsOK (propUsed s pth true d dnp) :=
+  (propUsed_self hc hnd hh ht hpar hpend).2
+
+/-- no_clamp (request): in the situation of `propagate_request_preserves` every clamp is the identity. -/
+theorem no_clamp_request {s : State} {pth : List Nat} {n : Nat} {d dnp : Int}
+    (hc : Chain s pth) (hnd : pth.Nodup) (hh : pth.head? = some n)
+    (ht : TreeOK (tree s)) (hpar : ParamsOK s) (hpend : ReqPend s n d dnp) :
+    propReqW clamp0 s pth true d dnp = propReqW id s pth true d dnp :=
+  (propReq_self hc hnd hh ht hpar hpend).1
+
+theorem no_clamp_used {s : State} {pth : List Nat} {n : Nat} {d dnp : Int}
+    (hc : Chain s pth) (hnd : pth.Nodup) (hh : pth.head? = some n)
+    (ht : TreeOK (tree s)) (hpar : ParamsOK s) (hpend : UsedPend s n d dnp) :
+    propUsedW clamp0 s pth true d dnp = propUsedW id s pth true d dnp :=
+  (propUsed_self hc hnd hh ht hpar hpend).1
+
+/-- General form of no_clamp: whenever the un-clamped run ends without a negative figure on the path, the
+clamped run took exactly the same steps (any self index, any pre-state). -/
+theorem no_clamp_request_general (path : List Nat) (s : State) (self : Bool) (d dnp : Int) (hnd : path.Nodup)
+    (h : ∀ m ∈ path, ∀ q', get? (propReqW id s path self d dnp) m = some q' →
+      0 ≤ crOf q' ∧ 0 ≤ q'.npRequest ∧ 0 ≤ q'.selfRequest ∧ 0 ≤ q'.selfNpRequest) :
+    propReq s path self d dnp = propReqW id s path self d dnp :=
+  propReq_noclamp path s self d dnp hnd h
+
+theorem no_clamp_used_general (path : List Nat) (s : State) (self : Bool) (d dnp : Int) (hnd : path.Nodup)
+    (h : ∀ m ∈ path, ∀ q', get? (propUsedW id s path self d dnp) m = some q' →
+      0 ≤ q'.used ∧ 0 ≤ q'.npUsed ∧ 0 ≤ q'.selfUsed ∧ 0 ≤ q'.selfNpUsed) :
+    propUsed s path self d dnp = propUsedW id s path self d dnp :=
+  propUsed_noclamp path s self d dnp hnd h
+
+/-- "nothing is driven negative": the local equations alone force every figure to be >= 0. -/
+theorem localInv_nonneg {s : State} (ht : TreeOK (tree s)) (hp : ParamsOK s) (hl : LocalInv s) :
+    ∀ m q, get? s m = some q → RNonneg q ∧ UNonneg q :=
+  fun m q hq => ⟨reqInv_nonneg ht hp hl.1 m q hq, usedInv_nonneg ht hp hl.2 m q hq⟩
+
+/-
+FULL STATEMENTS NOT YET PROVED (DESIGN §4 C01, T1–T3, T5, T6):
+  step_preserves_localInv : WF s → Pre s op → LocalInv s → LocalInv (step s op)
+  localInv_unique         : TreeOK (tree s) → LocalInv s → aggregates s = recompute (objects s)
+  history_exact           : ∀ ops, Admissible init ops → LocalInv (run init ops)
+  reset_agrees, delta_commute
+Proved part: the propagation lemmas above, which are the inductive core of every case of
+`step_preserves_localInv`, and the instance below for the two delta entry points that the pod handlers call.
+Missing: the PodCache bookkeeping lemmas (add / remove / flag flip change `podSum` by exactly the handler's
+delta) for each handler, and the self-index −1 uses (max/min update, delete, re-parent, rebuild).
+-/
+
+/-- updateGroupDeltaRequestNoLock(n, d, dnp, 0) after the pod set of `n` changed by (d, dnp). -/
+theorem step_preserves_localInv_partial {s : State} {n : Nat} {d dnp : Int}
+    (hc : Chain s (path s n)) (hnd : (path s n).Nodup) (hh : (path s n).head? = some n)
+    (ht : TreeOK (tree s)) (hpar : ParamsOK s) (hpend : ReqPend s n d dnp) (hu : UsedInv s) :
+    LocalInv (deltaReq s n d dnp true) := by
+  have h := propagate_request_preserves hc hnd hh ht hpar hpend
+  exact ⟨h.1, usedPend_zero.mp (h.2.1 n 0 0 (usedPend_zero.mpr hu))⟩
+
+/-- updateGroupDeltaUsedNoLock(n, d, dnp, 0) after the assigned pod set of `n` changed by (d, dnp). -/
+theorem step_preserves_localInv_used_partial {s : State} {n : Nat} {d dnp : Int}
+    (hc : Chain s (path s n)) (hnd : (path s n).Nodup) (hh : (path s n).head? = some n)
+    (ht : TreeOK (tree s)) (hpar : ParamsOK s) (hpend : UsedPend s n d dnp) (hr : ReqInv s) :
+    LocalInv (deltaUsed s n d dnp true) := by
+  have h := propagate_used_preserves hc hnd hh ht hpar hpend
+  exact ⟨reqPend_zero.mp (h.2.1 n 0 0 (reqPend_zero.mpr hr)), h.1⟩
+
+/-! ### non-vacuity: a concrete history, its state, and the hypotheses on it -/
+
+/-- root(1) ⊇ P1(2), P2(3); A(4): max 10 under P1 with a pod of 30; B(5) under P1 with a pod of 25. -/
+def exOps : List Op :=
+  [ .quota ⟨2, 1, true, true, 100, 0⟩, .quota ⟨3, 1, true, true, 100, 0⟩,
+    .quota ⟨4, 2, false, true, 10, 0⟩, .quota ⟨5, 2, false, true, 100, 0⟩,
+    .podAdd 4 ⟨1, 30, false, false, false, false⟩, .podAdd 5 ⟨2, 25, true, true, false, false⟩ ]
+
+def exState : State := run init exOps
+
+/-- the figures of the example: A requests 30 but only min(30, 10) reaches P1; B's pod is assigned. -/
+example : (exState.map fun q => (q.name, q.request, q.childRequest, q.used, q.npRequest)) =
+    [(5, 25, 25, 25, 25), (4, 30, 30, 0, 0), (3, 0, 0, 0, 0), (2, 35, 35, 25, 25), (1, 35, 0, 25, 25)] := by decide
+
+/-- the hypotheses of the propagation theorems hold on it (chain from A to the root) -/
+example : path exState 4 = [4, 2, 1] ∧ Chain exState [4, 2, 1] ∧ [4, 2, 1].Nodup :=
+  ⟨by decide, ⟨by decide, by decide, by decide, by decide, 0, by decide, by decide⟩, by decide⟩
+
+/-- …and the re-parent of A to P2 (the history of the defect repaired by commit 3651408) leaves P1 with B's 25 -/
+example : ((run exState [.quota ⟨4, 3, false, true, 10, 0⟩]).map fun q => (q.name, q.request)) =
+    [(4, 30), (5, 25), (3, 10), (2, 25), (1, 35)] := by decide
+
 end KoordVerif.C01
